@@ -38,4 +38,6 @@ func runC13(c *core.Ctx) {
 	h.openHandlesEveryFile("C13.4b open-chain")
 	c.Clause("C13.5 observers: Count, Contains, PrevIndex, LastIndex and segment.lastIndex are the abstract sequence's definitions")
 	h.observers("C13.5 observers")
+	c.Clause("C13.6 Reset/Close/CommitN walk the whole chain; Reset removes every old segment before it creates the new one")
+	h.segmentWalks("C13.6 segment-walks")
 }
